@@ -693,6 +693,32 @@ def C03(tier, seed, st):
             hist.append(["C %s %s" % (lang, sent)] + ["C %s %s" % (o, sent) for o in others] + ["C %s %s" % (lang, sent)])
     hist += validator_pair_histories(rng, rng.sample(LANGS, 2) if q else LANGS, q)
     run_Q(res, hist, judge_op_validator)
+    # membership by volume: millions of pseudo-random letter tokens in front of eleven list words; every token that
+    # is not a list word must be reported as the unknown word (a lookup by hash, prefix or anything looser than
+    # equality shows up as a token that is not)
+    per = (1 << 19) if q else (1 << 23)
+    mp, mpl = [], []
+    for lang in LANGS:
+        idx = gens.indices_of_entropy(rng.randbytes(16))[1:]
+        tail = gens.sentence(lang, idx, b" ")
+        for k in range(16):
+            mp.append("MP %s %d %d %s" % (lang, per // 16 if q else per // 16, rng.randrange(1, 2 ** 40), hx(tail)))
+            mpl.append((lang, tail))
+    for ln, (lang, tail), r in zip(mp, mpl, common.run_impl(mp)):
+        res.evaluations += int(ln.split()[2])
+        res.count("MP/probes", int(ln.split()[2]))
+        if r.startswith("hit "):
+            for tok in r[4:].split(","):
+                if unhx(tok) in gens.table(lang):
+                    continue       # the random token happens to be a list word
+                case = "C %s %s" % (lang, hx(unhx(tok) + b" " + tail))
+                sp = common.run_model([case], "spec")[0]
+                im = common.run_impl([case])[0]
+                res.violation(stream="MP", case=case, impl=im, model="", spec=sp,
+                              why="a token that is not a word of the list is not reported as unknown (membership is decided by something looser than equality)")
+        elif r != "ok":
+            res.corr_break(stream="MP", case=ln[:200], impl=r[:200], why="membership probe failed to run")
+    res.streams["MP"] = len(mp)
     # all 2048 candidate last words for a prefix: count and set against the specification
     prefixes = []
     for lang in (rng.sample(LANGS, 3) if q else LANGS):
